@@ -360,6 +360,7 @@ PROPS["C16"] = {
     "tests": [
         {"name": "TestProp", "quick": {"shards": 8, "checks": 4000}, "thorough": {"shards": 16, "checks": 40000}},
         {"name": "TestAlias", "quick": {"shards": 8, "checks": 2500}, "thorough": {"shards": 16, "checks": 25000}},
+        {"name": "TestControl", "quick": {"shards": 8, "checks": 2500}, "thorough": {"shards": 16, "checks": 25000}},
     ],
     "rule": "cases: generated programs; programs = cases whose globals were compared. Non-trivial = compared program with a loop and a "
             "composite value, or an unsupported construct that was rejected, or a run-time error both sides agree on; for the alias "
